@@ -145,7 +145,7 @@ def even_cluster_count(n, sz_cl):
 class _Scn(object):
     PROP = PROP
     ID = 'c20.gen'
-    TIERS = {'quick': 12000, 'thorough': 600000}
+    TIERS = {'quick': 24000, 'thorough': 600000}
     nmax = 8
 
     def generate(self, sub):
